@@ -1,6 +1,8 @@
 package rules
 
 import (
+	"slices"
+	"sort"
 	"fmt"
 	"go/token"
 	"go/types"
@@ -27,7 +29,7 @@ func runC08(p *core.Prog, r *core.Report) {
 	c08R2(p, r, "C08.R2")
 	c08R6(p, r)
 	c08R3(p, r)
-	c08R4(p, r)
+	c08R4(p, r, "C08.R4")
 	c08R5(p, r)
 	c07R5(p, r, "C08.R7")
 	c08R8(p, r, "C08.R8")
@@ -35,6 +37,8 @@ func runC08(p *core.Prog, r *core.Report) {
 	// referrers pushed as children are reachable for the mark phase only through the fallback index:
 	// its read-modify-write must not lose an entry (shared with C10.R3)
 	c10R3(p, r, "C08.R10")
+	whoMayRemoveRule(p, r, "C08.R11")
+	c08R12(p, r, "C08.R12")
 }
 
 // c08R8: an index entry is marked because the index lists it, not because it could be loaded. Before
@@ -831,9 +835,8 @@ func gcMarkWalkers(p *core.Prog) (walkers map[*ssa.Function]bool, first *ssa.Fun
 	return walkers, first, reaches
 }
 
-func c08R4(p *core.Prog, r *core.Report) {
-	const rule = "C08.R4"
-	r.Rule(rule, "mark phase edge kinds: index entries, config and layers are each consulted, marked in the digest set, and every index entry is loaded and recursed into regardless of its media type", 4)
+func c08R4(p *core.Prog, r *core.Report, rule string) {
+	r.Rule(rule, "mark phase edge kinds: index entries, config and layers are each consulted, marked in the digest set, and every index entry is loaded and recursed into regardless of its media type and of whether its digest is already in the mark set", 4)
 	walkers, first, reaches := gcMarkWalkers(p)
 	if walkers == nil {
 		r.MissingAnchor(rule, ocidirRel+".(*OCIDir).Close")
@@ -923,8 +926,62 @@ func c08R4(p *core.Prog, r *core.Report) {
 					}
 				}
 			}
+			// nor on membership in the mark set: that set also holds digests that were only marked
+			// (config, layers, entries met as a layer of an artifact), never walked
 			if bad == "" {
-				r.Held(rule, p.FuncName(f), lab.next("recursion into index entry"), p.Pos(c.Pos()), "not control-dependent on the entry's media type")
+				markParams := map[*ssa.Parameter]bool{}
+				mapParam := func(m ssa.Value) *ssa.Parameter {
+					for _, o := range core.Origins(m, core.SliceOpts{FieldsThrough: true}) {
+						if o.Kind == core.OParam {
+							return o.Param
+						}
+					}
+					return nil
+				}
+				for _, b := range f.Blocks {
+					for _, in2 := range b.Instrs {
+						if mu, ok := in2.(*ssa.MapUpdate); ok {
+							if pr := mapParam(mu.Map); pr != nil {
+								markParams[pr] = true
+							}
+						}
+					}
+				}
+				var member func(v ssa.Value, d int) bool
+				seenV := map[ssa.Value]bool{}
+				member = func(v ssa.Value, d int) bool {
+					if v == nil || d > 6 || seenV[v] {
+						return false
+					}
+					seenV[v] = true
+					if lk, ok := v.(*ssa.Lookup); ok {
+						if _, isMap := lk.X.Type().Underlying().(*types.Map); isMap {
+							if pr := mapParam(lk.X); pr != nil && markParams[pr] {
+								return true
+							}
+						}
+					}
+					if in3, ok := v.(ssa.Instruction); ok {
+						if _, isCall := v.(*ssa.Call); isCall {
+							return false
+						}
+						for _, op := range in3.Operands(nil) {
+							if op != nil && *op != nil && member(*op, d+1) {
+								return true
+							}
+						}
+					}
+					return false
+				}
+				for _, ifi := range core.ControlDeps(in) {
+					if member(ifi.Cond, 0) {
+						r.Violated(rule, p.FuncName(f), lab.next("recursion into index entry"), p.Pos(c.Pos()), "the recursion is skipped for entries whose digest is already in the mark set (test at "+p.Pos(ifi.Cond.Pos())+"): the set also holds digests that were marked without being walked (a manifest stored as a layer of an artifact, an entry of another list), so the config and layers of such a manifest are swept")
+						return
+					}
+				}
+			}
+			if bad == "" {
+				r.Held(rule, p.FuncName(f), lab.next("recursion into index entry"), p.Pos(c.Pos()), "not control-dependent on the entry's media type or on membership in the mark set")
 			} else {
 				r.Violated(rule, p.FuncName(f), lab.next("recursion into index entry"), p.Pos(c.Pos()), "the recursion is guarded by a test of the entry's media type at "+bad+": manifests of a type missing from that list (schema1, artifact, future types) are marked but their blobs are swept")
 			}
@@ -1156,5 +1213,170 @@ func c08R9(p *core.Prog, r *core.Report, rule string) {
 		}
 		r.Check(bad == "", rule, p.FuncName(s.fn), lab.next("ignored load failure of "+s.g.Name()), p.Pos(s.call.Pos()),
 			fmt.Sprintf("the walk continues when %s fails, and %s fails when the context has ended (%s): closing a layout with a cancelled context sweeps the children of every tag (%d functions examined)", s.g.Name(), s.g.Name(), bad, n))
+	}
+}
+
+// ---------------------------------------------------------------------------------------------
+// who may remove content
+
+// whoMayRemoveRule: a file under a layout's blob directory is removed by an operation that names
+// that content (BlobDelete, ManifestDelete) or by the sweep, which has computed what is reachable.
+// No other operation knows whether something else still refers to the file: a tag delete that also
+// removes "its" manifest breaks every index, referrers list and other tag that shares it.
+func whoMayRemoveRule(p *core.Prog, r *core.Report, rule string) {
+	r.Rule(rule, "content is removed only by an explicit delete or by the sweep: every os.Remove / RemoveAll in scheme/ocidir (temp-file clean-up aside) sits in a function that, among the exported methods of the layout scheme, is reachable only from BlobDelete, ManifestDelete or Close", 2)
+	n := p.Named(ocidirRel, "OCIDir")
+	if n == nil {
+		r.MissingAnchor(rule, ocidirRel+".OCIDir")
+		return
+	}
+	allowed := map[string]bool{"BlobDelete": true, "ManifestDelete": true, "Close": true}
+	// exported entry points and what each reaches
+	type entry struct {
+		fn    *ssa.Function
+		reach map[*ssa.Function]bool
+	}
+	var entries []entry
+	for _, fn := range pkgFuncs(p, ocidirRel) {
+		if fn.Parent() != nil || fn.Object() == nil || !fn.Object().Exported() || recvNamed(fn) != n {
+			continue
+		}
+		entries = append(entries, entry{fn, p.ReachSet(fn, core.ReachQuery{})})
+	}
+	cnt := 0
+	for _, fn := range pkgFuncs(p, ocidirRel) {
+		lab := labeler{}
+		core.Calls(fn, func(c ssa.CallInstruction) {
+			cal := core.Callee(c)
+			if cal == nil || !(core.IsFunc(cal, "os", "Remove") || core.IsFunc(cal, "os", "RemoveAll")) {
+				return
+			}
+			// clean-up of a temp file the function made itself
+			for _, oc := range originCallsDeep(p, core.CallArg(c, 0), 2) {
+				if f := core.Callee(oc); f != nil && (core.IsMethod(f, "os", "File", "Name") || core.IsFunc(f, "os", "CreateTemp")) {
+					return
+				}
+			}
+			cnt++
+			root := fn
+			for root.Parent() != nil {
+				root = root.Parent()
+			}
+			var bad []string
+			for _, e := range entries {
+				if (e.reach[fn] || e.reach[root]) && !allowed[e.fn.Name()] {
+					bad = append(bad, e.fn.Name())
+				}
+			}
+			sort.Strings(bad)
+			r.Check(len(bad) == 0, rule, p.FuncName(fn), lab.next(cal.Name()), p.Pos(c.Pos()),
+				"this removal runs under "+strings.Join(bad, ", ")+", which does not decide whether anything else (a tagged index, a referrers list, another tag) still refers to the file")
+		})
+	}
+	if cnt == 0 {
+		r.MissingAnchor(rule, "os.Remove calls in "+ocidirRel)
+	}
+}
+
+// ---------------------------------------------------------------------------------------------
+// one key per layout
+
+// c08R12: the lock count, the dirty flag and the sweep decision of a layout live in one map entry.
+// They only meet when every access builds the key in the same way: a lock taken under a cleaned-up
+// spelling of the path and looked for under the raw one is not found by Close, and the collection
+// runs under the copy.
+func c08R12(p *core.Prog, r *core.Report, rule string) {
+	r.Rule(rule, "one key per layout: every lookup, update and delete on the GC bookkeeping map of scheme/ocidir builds its key the same way (all from the reference's path field directly, or all through the same function) — sibling agreement between GCLock, GCUnlock, the dirty marker and Close", 3)
+	gf := findGCFields(p)
+	if gf == nil {
+		r.MissingAnchor(rule, ocidirRel+" GC bookkeeping map")
+		return
+	}
+	isMap := func(v ssa.Value) bool {
+		u, ok := v.(*ssa.UnOp)
+		if !ok || u.Op != token.MUL {
+			return false
+		}
+		fa, ok := u.X.(*ssa.FieldAddr)
+		if !ok {
+			return false
+		}
+		n, f := core.FieldAddrInfo(fa)
+		return n == gf.mapOwner && f == gf.mapF
+	}
+	type site struct {
+		fn  *ssa.Function
+		pos token.Pos
+		sig string
+	}
+	var sites []site
+	sigOf := func(fn *ssa.Function, key ssa.Value) string {
+		root := fn
+		for root.Parent() != nil {
+			root = root.Parent()
+		}
+		var parts []string
+		for _, o := range core.Origins(key, core.SliceOpts{Helpers: core.Helpers(root, 2)}) {
+			switch o.Kind {
+			case core.OField:
+				parts = append(parts, "field "+o.Field)
+			case core.OCall:
+				if f := o.Callee(); f != nil {
+					parts = append(parts, "call "+core.ShortFunc(f))
+				} else {
+					parts = append(parts, "call")
+				}
+			case core.OParam:
+				parts = append(parts, "param")
+			default:
+				parts = append(parts, o.Kind)
+			}
+		}
+		sort.Strings(parts)
+		parts = slices.Compact(parts)
+		return strings.Join(parts, " + ")
+	}
+	for _, fn := range pkgFuncs(p, ocidirRel) {
+		for _, b := range fn.Blocks {
+			for _, in := range b.Instrs {
+				switch x := in.(type) {
+				case *ssa.Lookup:
+					if isMap(x.X) {
+						sites = append(sites, site{fn, x.Pos(), sigOf(fn, x.Index)})
+					}
+				case *ssa.MapUpdate:
+					if isMap(x.Map) {
+						sites = append(sites, site{fn, x.Pos(), sigOf(fn, x.Key)})
+					}
+				case *ssa.Call:
+					if bi, ok := x.Call.Value.(*ssa.Builtin); ok && bi.Name() == "delete" && len(x.Call.Args) == 2 && isMap(x.Call.Args[0]) {
+						sites = append(sites, site{fn, x.Pos(), sigOf(fn, x.Call.Args[1])})
+					}
+				}
+			}
+		}
+	}
+	if len(sites) == 0 {
+		r.MissingAnchor(rule, "accesses to the GC bookkeeping map")
+		return
+	}
+	// the majority signature is the reference
+	count := map[string]int{}
+	for _, s := range sites {
+		count[s.sig]++
+	}
+	best := ""
+	for sg, c := range count {
+		if c > count[best] || (c == count[best] && sg < best) || best == "" {
+			best = sg
+		}
+	}
+	lab := map[*ssa.Function]*labeler{}
+	for _, s := range sites {
+		if lab[s.fn] == nil {
+			lab[s.fn] = &labeler{}
+		}
+		r.Check(s.sig == best, rule, p.FuncName(s.fn), lab[s.fn].next("bookkeeping key"), p.Pos(s.pos),
+			fmt.Sprintf("this access builds its key from [%s], the other accesses from [%s]: the two spellings of one layout get separate entries, and the lock taken under one is not seen by the sweep that looks under the other", s.sig, best))
 	}
 }
